@@ -242,8 +242,21 @@ def case_nd(ctx, index, rng: random.Random):
     desc = {"dim": d, "bins": [gen.hexlist(np.asarray(p).ravel()) for p, _ in axes], "right_closed": [c for _, c in axes],
             "rows": gen.hexlist(rows.ravel()), "weights": None if wts is None else list(wts), "keep_missed": keep_missed}
 
+    # the binning class of every axis is part of the case: consecutive axes may be numpy-style binnings (right-open or right-closed)
+    axis_class = ["numpy" if (gen.is_consecutive_pairs(p) and rng.random() < 0.5) else "static" for p, _ in axes]
+    touch_seed = rng.randrange(10**9)
+
     def mkbins():
-        return [binnings.StaticBinning(np.array(p), includes_right_edge=c) for p, c in axes]
+        out = []
+        trng = random.Random(touch_seed)
+        for (p, c), k in zip(axes, axis_class):
+            if k == "numpy":
+                b = binnings.NumpyBinning(np.array([q[0] for q in p] + [p[-1][1]]), includes_right_edge=c)
+            else:
+                b = binnings.StaticBinning(np.array(p), includes_right_edge=c)
+            gen.touch_binning(trng, b)
+            out.append(b)
+        return out
 
     def fresh():
         klass = Histogram2D if d == 2 else HistogramND
